@@ -1,0 +1,75 @@
+//go:build verif
+
+// Contracts for package storage (comment-only; compiled only with the build tag "verif",
+// read by /verif/engine). Properties C11, C19.
+
+package storage
+
+//@ import heap "github.com/jamf/regatta/util/heap"
+
+// ---------------------------------------------------------------- waiter queue (C11)
+
+// A waiter that sits in a heap has not been answered yet: its channel (capacity 1) is empty and open,
+// so the event loop can always answer it without blocking.
+//@ pure func itemOK(x *item) bool = x != nil && x.ctx != nil && x.waitCh != nil && cap(x.waitCh) == 1 && len(x.waitCh) == 0 && !chanClosed(x.waitCh)
+//@ pure func itemsOK(h *heap.Heap[*item]) bool = forall k int :: 0 <= k && k < len(h.Slice) ==> itemOK(h.Slice[k])
+// waiters in a heap are pairwise different objects with pairwise different channels
+//@ pure func distinct(h *heap.Heap[*item]) bool = forall k int, l int :: 0 <= k && k < l && l < len(h.Slice) ==> h.Slice[k] != h.Slice[l] && h.Slice[k].waitCh != h.Slice[l].waitCh
+// heap order by the CURRENT revisions of the waiters
+//@ pure func revOKAt(h *heap.Heap[*item], p int, n int) bool = (2*p+1 < n ==> h.Slice[2*p+1].revision >= h.Slice[p].revision) && (2*p+2 < n ==> h.Slice[2*p+2].revision >= h.Slice[p].revision)
+//@ pure func revHeapOK(h *heap.Heap[*item]) bool = forall p int :: 0 <= p && p < len(h.Slice) ==> revOKAt(h, p, len(h.Slice))
+
+// Heap[*item] operations: instances of the generic theorems proved in util/heap (every strict weak
+// order; here: revision order on the current contents of the waiters, which must not change while
+// they sit in the heap). ASSUMED as instantiations, stated over revisions.
+//@ func heap.(*Heap).Len[*storage.item]
+//@   assumed
+//@   requires h != nil
+//@   ensures result == len(h.Slice)
+//@   modifies nothing
+//@ func heap.(*Heap).Peek[*storage.item]
+//@   assumed
+//@   requires h != nil && len(h.Slice) > 0
+//@   ensures result == h.Slice[0]
+//@   modifies nothing
+//@ func heap.(*Heap).Pop[*storage.item]
+//@   assumed
+//@   requires h != nil && len(h.Slice) > 0 && revHeapOK(h)
+//@   ensures revHeapOK(h) && len(h.Slice) == old(len(h.Slice)) - 1 && result == old(h.Slice[0])
+//@   ensures [perm] forall k int :: 0 <= k && k < len(h.Slice) ==> exists l int :: 1 <= l && l < old(len(h.Slice)) && h.Slice[k] == old(h.Slice[l])
+//@   modifies h.Slice, elems(h.Slice)
+//@ func heap.(*Heap).Push[*storage.item]
+//@   assumed
+//@   requires h != nil && revHeapOK(h)
+//@   ensures revHeapOK(h) && len(h.Slice) == old(len(h.Slice)) + 1
+//@   modifies h.Slice, elems(h.Slice)
+//@ func heap.(*Heap).Fix[*storage.item]
+//@   assumed
+//@   requires h != nil && (i < len(h.Slice) || i == 0)
+//@   requires [C11.fix.pre] i >= 0 ==> forall p int :: 0 <= p && p < len(h.Slice) && p != i && (i == 0 || p != (i-1)/2) ==> revOKAt(h, p, len(h.Slice))
+//@   ensures revHeapOK(h) && sameSlice(h.Slice, old(h.Slice))
+//@   ensures [perm] forall k int :: 0 <= k && k < len(h.Slice) ==> exists l int :: 0 <= l && l < len(h.Slice) && h.Slice[k] == old(h.Slice[l])
+//@   modifies elems(h.Slice)
+//@ func heap.(*Heap).Remove[*storage.item]
+//@   assumed
+//@   requires h != nil && 0 <= i && i < len(h.Slice) && revHeapOK(h)
+//@   ensures revHeapOK(h) && len(h.Slice) == old(len(h.Slice)) - 1 && result == old(h.Slice[i])
+//@   ensures [perm] forall k int :: 0 <= k && k < len(h.Slice) ==> exists l int :: 0 <= l && l < old(len(h.Slice)) && l != i && h.Slice[k] == old(h.Slice[l])
+//@   ensures [keep] forall k int :: 0 <= k && k < i && k < len(h.Slice) ==> h.Slice[k] == old(h.Slice[k]) || (exists l int :: i < l && l < old(len(h.Slice)) && h.Slice[k] == old(h.Slice[l]))
+//@   modifies h.Slice, elems(h.Slice)
+
+// The periodic sweep over one table's heap (contract from the property): afterwards every waiter
+// still in the heap is unanswered (so no later action can block on it) and the heap is in order; the
+// sweep itself never blocks.
+//@ func (*IndexNotificationQueue).Run$1
+//@   nonblocking
+//@   requires h != nil && itemsOK(h) && distinct(h) && revHeapOK(h)
+//@   ensures [C11.sweep.unanswered] itemsOK(h)
+//@   ensures [C11.sweep.order]      revHeapOK(h)
+//@   ensures [C11.sweep.expired]    forall k int :: 0 <= k && k < len(h.Slice) ==> ctxErr(h.Slice[k].ctx) == nil
+//@   modifies h.Slice, elems(h.Slice), family(CH_len), family(F_storage_item_revision)
+//@   loop 0 invariant 0 <= i && i <= l && l == len(h.Slice) && sameSlice(h.Slice, old(h.Slice)) && distinct(h)
+//@   loop 0 invariant forall k int :: 0 <= k && k < len(h.Slice) ==> h.Slice[k] == old(h.Slice[k]) && h.Slice[k] != nil && h.Slice[k].ctx != nil && h.Slice[k].waitCh != nil && cap(h.Slice[k].waitCh) == 1 && !chanClosed(h.Slice[k].waitCh)
+//@   loop 0 invariant forall k int :: i <= k && k < len(h.Slice) ==> len(h.Slice[k].waitCh) == 0 && h.Slice[k].revision == old(h.Slice[k].revision)
+//@   loop 0 invariant forall k int :: 0 <= k && k < i ==> (ctxErr(h.Slice[k].ctx) != nil ? h.Slice[k].revision == 0 && len(h.Slice[k].waitCh) == 1 : len(h.Slice[k].waitCh) == 0 && h.Slice[k].revision == old(h.Slice[k].revision))
+//@   loop 1 invariant 0 <= i && i <= l && len(h.Slice) >= l - i && revHeapOK(h)
